@@ -20,7 +20,9 @@ Ctors == { [ctor |-> "string", uri |-> <<>>, segs |-> S1], [ctor |-> "fields", u
            [ctor |-> "string", uri |-> <<>>, segs |-> S2],
            [ctor |-> "string", uri |-> <<Templates[MaxOf(AllTypesOf(S2))].name>>, segs |-> S2],     \* same string, other type
            [ctor |-> "path", uri |-> <<>>, segs |-> S1], [ctor |-> "string", uri |-> <<>>, segs |-> SubSeq(S1, 1, 4)],
-           [ctor |-> "string", uri |-> <<>>, segs |-> <<"junk">>] }
+           [ctor |-> "string", uri |-> <<>>, segs |-> <<"junk">>],
+           \* a value with a space in it (accepted by an unrestricted key): as_query() drops spaces from what it RETURNS only
+           [ctor |-> "string", uri |-> <<>>, segs |-> [k \in 1..4 |-> IF k = 4 THEN "oph elia" ELSE S1[k]]] }
 ValueOf(c) == MkFromString([op |-> "sid", uri |-> c.uri, segs |-> c.segs, query |-> <<>>])
 Free == {h \in Handles : pop[h] = Nil}
 Bound == Handles \ Free
